@@ -532,6 +532,8 @@ def lib_read(w, keyring, now, request_mac, tsig_ctx, multi, origin=None, coe=Fal
         if coe and m.errors:
             return None, m.errors[0].exception, SHIM.log[n0:]
         return m, None, SHIM.log[n0:]
+    except core.Stalled:
+        raise
     except BaseException as e:  # classified by the caller
         return None, e, SHIM.log[n0:]
 
@@ -636,6 +638,8 @@ def eval_case(ctx: Ctx, c: dict):
         eval_exch(ctx, c, rep)
     elif k == "krtext":
         eval_krtext(ctx, c, rep)
+    elif k == "grid":
+        eval_grid(ctx, c, rep)
     else:
         raise ValueError(k)
 
@@ -852,6 +856,8 @@ def to_wire_options(ctx, c, rep, key, keyring, p, now, rm):
         ctx.count("route.to_wire.no-toobig")
     except dns.exception.TooBig:
         ctx.count("route.to_wire.toobig-then-again")
+    except core.Stalled:
+        raise
     except BaseException as e:
         fail(ctx, "C14/sign/to_wire-raises:" + type(e).__name__, f"to_wire(max_size=512) raised {e!r}", rep)
     verify(m.to_wire(max_size=65535), "to_wire() after a to_wire(max_size=512) that may have raised TooBig", p2)
@@ -911,6 +917,8 @@ def extra_routes(ctx, c, rep, w, t, key, keyring, p, now, rm):
             CLOCK.t = now
             try:
                 m2 = dns.message.from_wire(w2, keyring=keyring, request_mac=rm, continue_on_error=True)
+            except core.Stalled:
+                raise
             except BaseException as e:
                 ctx.count("route.coe.raises")
                 continue
@@ -1221,6 +1229,8 @@ def eval_fn(ctx, c, rep):
         try:
             out = dns.tsig._digest(wire, key, rd, time_, rm, tc, multi)
             impl = "ok " + e_ctx(out)
+        except core.Stalled:
+            raise
         except BaseException as e:
             impl = e_exc(e)
         ctx.corr(f"c14.digest {hx(wire)} {e_key(key)} {e_rdata(rd)} {'none' if time_ is None else time_} {hx(rm)} {tc_line} {int(multi)}", impl, c)
@@ -1228,6 +1238,8 @@ def eval_fn(ctx, c, rep):
         try:
             rd2, c2 = dns.tsig.sign(wire, key, rd, c["time"], rm, tc, multi)
             impl = f"ok {e_rdata(rd2)} {e_ctx(c2)}"
+        except core.Stalled:
+            raise
         except BaseException as e:
             impl = e_exc(e)
         ctx.corr(f"c14.sign {hx(wire)} {e_key(key)} {e_rdata(rd)} {c['time']} {hx(rm)} {tc_line} {int(multi)} {e_h(SHIM.log[n0:])}", impl, c)
@@ -1237,6 +1249,8 @@ def eval_fn(ctx, c, rep):
             c2 = dns.tsig.validate(wire, key, owner, rd, c["now"], rm, c["tsig_start"], tc, multi)
             log = SHIM.log[n0:]
             impl = f"ok {e_ctx(c2)} in={hx(log[-1][2]) if log else '-'}"
+        except core.Stalled:
+            raise
         except BaseException as e:
             impl = e_exc(e)
         ctx.corr(f"c14.validate {hx(wire)} {e_key(key)} {e_name(owner)} {e_rdata(rd)} {c['now']} {hx(rm)} {c['tsig_start']} {tc_line} {int(multi)} {e_h(SHIM.log[n0:])}", impl, c)
@@ -1267,6 +1281,8 @@ def eval_rdata(ctx, c, rep):
         try:
             rd = dns.rdata.from_wire(dns.rdataclass.ANY, dns.rdatatype.TSIG, w, s, n)
             impl = "ok " + e_rdata(rd)
+        except core.Stalled:
+            raise
         except BaseException as e:
             impl = e_exc(e)
         ctx.corr(f"c14.rddec {hx(w)} {s} {s + n}", impl, c)
@@ -1284,6 +1300,8 @@ def eval_mac(ctx, c, rep):
         h.update(data)
         mac = h.sign()
         impl = "ok " + hx(mac)
+    except core.Stalled:
+        raise
     except BaseException as e:
         mac = None
         impl = e_exc(e)
@@ -1330,6 +1348,8 @@ def eval_exch(ctx, c, rep):
         kw["tsig_error"] = dns.rcode.Rcode(c["rerror"]) if c["now"] & 1 else c["rerror"]   # enum member or plain int
     try:
         r = dns.message.make_response(sq, **kw)
+    except core.Stalled:
+        raise
     except BaseException as e:
         fail(ctx, "C14/make_response/raises:" + type(e).__name__, f"make_response of a validated signed query raised {e!r}", rep)
         return
@@ -1341,6 +1361,8 @@ def eval_exch(ctx, c, rep):
     n0 = len(SHIM.log)
     try:
         rw = r.to_wire(origin=so)   # (make_response does not carry the query's origin over; the question is relative to it)
+    except core.Stalled:
+        raise
     except BaseException as e:
         fail(ctx, "C14/make_response/to_wire-raises:" + type(e).__name__, f"rendering the response raised {e!r}", rep)
         return
@@ -1388,6 +1410,8 @@ def eval_krtext(ctx, c, rep):
         textring[n] = b64 if alg is None else (alg, b64)
     try:
         kr = dns.tsigkeyring.from_text(textring)
+    except core.Stalled:
+        raise
     except BaseException as e:
         fail(ctx, "C14/tsigkeyring/from_text-raises:" + type(e).__name__, f"from_text({textring!r}) raised {e!r}", rep)
         return
@@ -1439,6 +1463,8 @@ def eval_krtext(ctx, c, rep):
         f.flush()
         try:
             fk = dns.tsigkeyring.from_file(f.name)
+        except core.Stalled:
+            raise
         except BaseException as e:
             fk = e
     exp = dns.tsigkeyring.from_text({n: b64 if alg is None else (alg, b64)})
@@ -1454,6 +1480,8 @@ def eval_krtext(ctx, c, rep):
         m.use_tsig(kr, n if c["keyname_as_text"] else dns.name.from_text(n), fudge=300, algorithm=use_alg)
         CLOCK.t = c["now"]
         w = m.to_wire()
+    except core.Stalled:
+        raise
     except BaseException as e:
         fail(ctx, "C14/use_tsig/raises:" + type(e).__name__, f"use_tsig / to_wire with a text keyring raised {e!r}", rep)
         return
@@ -1466,6 +1494,104 @@ def eval_krtext(ctx, c, rep):
     if e is not None or not m2.had_tsig:
         fail(ctx, "C14/validate/genuine-rejected/text-keyring", f"signed through a text keyring, rejected through the same keyring: {e!r}", rep)
     ctx.count("krtext.signed." + ("bytes" if alg is None else "key"))
+
+
+def eval_grid(ctx, c, rep):
+    """the option grid (tsig_ctx None / fresh / left over from an earlier multi exchange) x (multi False / True) x
+    (request MAC empty / not), through Message.to_wire + from_wire and through dns.tsig.sign / validate.
+    RFC 8945: only a message that continues a multi-message exchange (multi AND a running context) is digested in the
+    short form (running context, message, timers); everything else is a stand-alone message (request MAC if any,
+    message, TSIG variables) - in particular a stale context handed in with multi=False must not matter."""
+    key = mk_key(c["key"])
+    now = c["now"]
+    rm = bytes.fromhex(c["request_mac"])
+    multi = bool(c["multi"])
+    p = {"fudge": c["fudge"]}
+
+    def mk_ctx():
+        if c["ctx"] == "none":
+            return None
+        if c["ctx"] == "fresh":
+            return dns.tsig.get_context(key)
+        # left over: what an earlier exchange under the same key leaves behind (MAC of its last signed envelope with its
+        # length, plus possibly an unsigned envelope)
+        _, sctx, _ = lib_sign(c["prev"], key, {"fudge": 300}, now - 5, b"", None, True)
+        if c["ctx"] == "leftover+unsigned":
+            sctx.update(mk_message(c["prev"]).to_wire())
+        return sctx
+
+    def expected(w, t, cin):
+        """the RFC input: continuation form iff multi and a context was handed in"""
+        if multi and cin is not None:
+            msg, _, timers = ref_components(w, t)
+            return ref_mac(t["alg"], key.secret, cin.hmac_context.data + msg + timers)
+        return ref_mac(t["alg"], key.secret, ref_input(w, t, rm, None))
+
+    form = "continuation" if (multi and c["ctx"] != "none") else "stand-alone"
+    tag = f"ctx={c['ctx']},multi={int(multi)},reqmac={'yes' if rm else 'no'}"
+    # --- Message.to_wire(tsig_ctx=..., multi=...) / from_wire(tsig_ctx=..., multi=...)
+    cin = mk_ctx()
+    snap = copy.deepcopy(cin)
+    w, ctx_out, rec = lib_sign(c["body"], key, p, now, rm, cin, multi)
+    try:
+        t = ref_tsig(w)
+    except RefError:
+        t = None
+    if t is None:
+        fail(ctx, "C14/sign/unparseable", f"to_wire({tag}) produced no well-formed signed message", rep)
+        return
+    exp = expected(w, t, snap)
+    ctx.count(f"grid.{form}.{c['ctx']}.multi{int(multi)}")
+    if t["mac"] != exp:
+        fail(ctx, f"C14/sign/mac-differs-from-rfc8945/grid/{form}",
+             f"Message.to_wire({tag}): MAC {t['mac'].hex()} is not the RFC 8945 {form} HMAC {exp.hex()} ({key.algorithm})", rep)
+    if rec is not None:
+        rd2, c2 = rec["out"]
+        ctx.corr(f"c14.sign {hx(rec['wire'])} {e_key(rec['key'])} {e_rdata(rec['rdata'])} {rec['time']} {hx(rec['request_mac'] or b'')} "
+                 f"{rec['ctx_in']} {int(bool(rec['multi']))} {e_h(rec['log'])}", f"ok {e_rdata(rd2)} {e_ctx(c2)}", c)
+    # the receiver holding the same context and flags accepts it; for a stand-alone message so does a receiver with none
+    readers = [("same ctx", copy.deepcopy(snap), multi)]
+    if form == "stand-alone":
+        readers.append(("no ctx", None, False))
+    if exp == t["mac"]:
+        for what, rc, rmulti in readers:
+            line_in = e_ctx(rc)
+            m2, e, log = lib_read(w, key, now, rm, rc, rmulti)
+            corr_read(ctx, c, w, key, now, rm, line_in, rmulti, m2, e, log)
+            if e is not None or not m2.had_tsig:
+                fail(ctx, f"C14/validate/genuine-rejected/grid/{form}",
+                     f"a genuine {form} message ({tag}) read with {what}, multi={int(rmulti)} is rejected: {e!r}", rep)
+    # --- dns.tsig.sign / validate with the same arguments
+    body = rec["wire"] if rec is not None else w[:t["start"]]
+    tmpl = rd_from({"alg": c["key"]["alg"], "time": 0, "fudge": c["fudge"], "mac": "", "oid": struct.unpack("!H", body[:2])[0],
+                    "error": 0, "other": ""})
+    fin = copy.deepcopy(snap)
+    n0 = len(SHIM.log)
+    try:
+        rd2, fout = dns.tsig.sign(body, key, tmpl, now, rm, fin, multi)
+    except core.Stalled:
+        raise
+    except BaseException as e:
+        fail(ctx, "C14/sign/raises:" + type(e).__name__, f"dns.tsig.sign({tag}) raised {e!r}", rep)
+        return
+    if rd2.mac != exp:
+        fail(ctx, f"C14/sign/mac-differs-from-rfc8945/grid/{form}",
+             f"dns.tsig.sign({tag}): MAC {rd2.mac.hex()} is not the RFC 8945 {form} HMAC {exp.hex()} ({key.algorithm})", rep)
+    vin = copy.deepcopy(snap)
+    vline = e_ctx(vin)
+    n0 = len(SHIM.log)
+    good = rd2.replace(mac=exp)
+    try:
+        vout = dns.tsig.validate(w, key, key.name, good, now, rm, t["start"], vin, multi)
+        impl = f"ok {e_ctx(vout)} in={hx(SHIM.log[-1][2]) if len(SHIM.log) > n0 else '-'}"
+    except core.Stalled:
+        raise
+    except BaseException as e:
+        impl = e_exc(e)
+        fail(ctx, f"C14/validate/genuine-rejected/grid/{form}",
+             f"dns.tsig.validate({tag}) rejects the RFC 8945 {form} MAC: {e!r}", rep)
+    ctx.corr(f"c14.validate {hx(w)} {e_key(key)} {e_name(key.name)} {e_rdata(good)} {now} {hx(rm)} {t['start']} {vline} {int(multi)} {e_h(SHIM.log[n0:])}",
+             impl, c)
 
 
 def eval_usetsig(ctx, c, rep):
@@ -1487,6 +1613,8 @@ def eval_usetsig(ctx, c, rep):
     try:
         m.use_tsig(kr, keyname, algorithm=alg)
         impl = f"ok {e_key(m.keyring)} {e_name(m.tsig.name)}"
+    except core.Stalled:
+        raise
     except BaseException as e:
         impl = "err"
     ctx.corr(f"c14.usetsig {e_keyring(kr)} {'none' if keyname is None else e_name(keyname)} {e_name(alg)}", impl, c)
@@ -1496,6 +1624,8 @@ def eval_usetsig(ctx, c, rep):
         CLOCK.t = c["now"]
         try:
             w = m.to_wire()
+        except core.Stalled:
+            raise
         except BaseException as e:
             ctx.count("usetsig.to_wire-raises." + type(e).__name__)
             return
@@ -1593,6 +1723,20 @@ def gen_exch(rng, flips=None):
     if flips:
         c["flips"] = flips
     return c
+
+
+def gen_grid(rng, ctxk=None, multi=None):
+    body = gen_body(rng, response=True)
+    while body.get("update"):
+        body = gen_body(rng, response=True)
+    body["edns"] = False
+    prev = gen_body(rng, response=True, xfr=True)
+    prev.pop("update", None)
+    prev["edns"] = False
+    return {"kind": "grid", "key": gen_key(rng, "example."), "body": body, "prev": prev, "now": gen_now(rng) + 70000,
+            "ctx": ctxk or rng.choice(["none", "fresh", "leftover", "leftover+unsigned"]),
+            "multi": int(rng.chance(1, 2)) if multi is None else multi, "fudge": rng.choice(FUDGES),
+            "request_mac": rng.bytes(rng.choice([16, 32, 64])).hex() if rng.chance(1, 2) else ""}
 
 
 def gen_krtext(rng):
@@ -1847,6 +1991,10 @@ def generate(ctx: Ctx, scale, rng, flips=True):
         go(c, sample=False)
     for _ in range(n(60)):
         go(gen_krtext(rng))
+    for ctxk in ("none", "fresh", "leftover", "leftover+unsigned"):
+        for multi in (0, 1):
+            for _ in range(n(6)):
+                go(gen_grid(rng, ctxk, multi))
     for _ in range(n(600)):
         go(gen_fn(rng))
     for _ in range(n(500)):
